@@ -17,6 +17,7 @@ From DX Require Import Bytes Res Codec Text Sections Header Json Writer.
 From DX Require HeaderFacts TextFacts WriterFacts Encodings.
 From DX Require Import WriterCanonFacts RoundTripBase RoundTripContent RoundTripSim RoundTrip.
 From DX Require Import SpecSerializer.
+From DX Require RoundTripSeqExample.
 From DXGen Require GenSections GenText GenCodecs.
 Import ListNotations.
 Import String.StringSyntax.
@@ -367,4 +368,509 @@ Section Walk.
         exact (ncs_spec _ _ _ _ _ own Hne Hl He Hown H).
   Qed.
 
+
+  (* ---- content sections: the header ---- *)
+  Lemma opt_pairs_cons_snoc : forall x L, Permutation (opt_pairs (x :: L)) (opt_pairs (L ++ [x])).
+  Proof.
+    intros x L. unfold opt_pairs. rewrite flat_map_app. cbn [flat_map]. rewrite app_nil_r. apply Permutation_app_comm.
+  Qed.
+
+  Lemma opt_pairs_none_mid : forall L k R, opt_pairs (L ++ (k, None) :: R) = opt_pairs (L ++ R).
+  Proof. intros. unfold opt_pairs. rewrite !flat_map_app. reflexivity. Qed.
+
+  Lemma content_header_eq : forall dots name body lo enc ind wle key v hd own sind sle sv,
+    content_opts body lo enc ind wle [(key, v)] =
+      (key, v) :: [(B "encoding", enc); (B "indent", ind); (B "length", WInt (Z.of_nat (length body)))]
+               ++ (if wle then [(B "line_endings", lo)] else []) ->
+    NoDup (map fst (content_opts body lo enc ind wle [(key, v)])) ->
+    HeaderFacts.spec_key key -> rend_value v -> rend_value enc -> rend_value ind -> rend_value lo ->
+    sval enc = own -> sval ind = option_map dec sind -> (if wle then sval lo else None) = sle -> sval v = sv ->
+    render_header (build_id dots name) (content_opts body lo enc ind wle [(key, v)]) = Ok hd ->
+    hd ++ body = content_section dots name own sind sle (key, sv) body.
+  Proof.
+    intros dots name body lo enc ind wle key v hd own sind sle sv Hlist Hnd Hkey Hv Henc Hind Hlo Eown Eind Ele Ev Hh.
+    unfold content_section. f_equal.
+    apply (writer_header_eq _ _ _ _ _ Hnd); [| |exact Hh]; rewrite Hlist.
+    - constructor; [split; assumption|].
+      constructor; [split; [apply key_spec; reflexivity|exact Henc]|].
+      constructor; [split; [apply key_spec; reflexivity|exact Hind]|].
+      constructor; [split; [apply key_spec; reflexivity|constructor]|].
+      destruct wle; [|constructor]. constructor; [split; [apply key_spec; reflexivity|exact Hlo]|constructor].
+    - cbn [map fst snd app]. rewrite Eown, Eind, Ev. destruct wle; cbn [map fst snd app].
+      + rewrite Ele.
+        change [(B "encoding", own); (B "indent", option_map dec sind); (B "length", Some (dec (length body)));
+                (B "line_endings", sle); (key, sv)]
+          with ([(B "encoding", own); (B "indent", option_map dec sind); (B "length", Some (dec (length body)));
+                 (B "line_endings", sle)] ++ [(key, sv)]).
+        apply opt_pairs_cons_snoc.
+      + subst sle.
+        change [(B "encoding", own); (B "indent", option_map dec sind); (B "length", Some (dec (length body)));
+                (B "line_endings", None); (key, sv)]
+          with ([(B "encoding", own); (B "indent", option_map dec sind); (B "length", Some (dec (length body)))]
+                 ++ (B "line_endings", None) :: [(key, sv)]).
+        rewrite opt_pairs_none_mid. apply opt_pairs_cons_snoc.
+  Qed.
+
+  (* ---- content sections: the position ---- *)
+  Lemma preamble_depth : forall n, n <= 2 -> In (build_id (n + 1) (B "preamble")) WriterFacts.ids -> n <= 1.
+  Proof.
+    intros n Hn H. destruct n as [|[|[|n]]]; try lia. exfalso. vm_compute in H.
+    repeat (destruct H as [H|H]; [discriminate H|]). exact H.
+  Qed.
+
+  Lemma diff_depth : forall n, n <= 2 -> In (build_id (n + 1) (B "diff")) WriterFacts.ids -> n = 2.
+  Proof.
+    intros n Hn H. destruct n as [|[|[|n]]]; try lia; exfalso; vm_compute in H;
+      repeat (destruct H as [H|H]; [discriminate H|]); exact H.
+  Qed.
+
+  Lemma content_target : forall h s c s' name,
+    Pos h s -> do_call c s = (s', Ok tt) -> WriterFacts.target s c = build_id (cur_level s + 1 - 1) name ->
+    cur_level s = depth h + 1 /\ depth h <= 2 /\ In (build_id (depth h + 1) name) WriterFacts.ids.
+  Proof.
+    intros h s c s' name HP H Ht. destruct (pos_facts h s HP) as (Hreach & Hlev & _).
+    split; [exact Hlev|]. split; [apply depth_le2|].
+    destruct (C02_ids_legal s c s' Hreach H) as (p & dots & nm & pairs & rest & _ & _ & _ & _ & _ & Hin & _).
+    rewrite Ht, Hlev in Hin. replace (depth h + 1 + 1 - 1) with (depth h + 1) in Hin by lia. exact Hin.
+  Qed.
+
+  (* ---- content sections: the effective encoding, by position ---- *)
+  Lemma lookup_nonempty : forall eb canon c, lookup_codec eb = LOk canon c -> eb <> [].
+  Proof. intros eb canon c H. apply (spelling_facts _ _ _ H). Qed.
+
+  Lemma eff_enc_spec : forall h s enc own e eb canon c,
+    Pos h s -> enc_ok enc -> str_arg enc = Some own ->
+    eff_enc s enc true = Ok (WStr e) -> c_enc ascii e = Some eb -> lookup_codec eb = LOk canon c ->
+    effective e0 h own = Some eb.
+  Proof.
+    intros h s enc own e eb canon c HP He Hown H1 Heb Hl.
+    destruct (enc_ok_arg enc He) as (own' & Ho & _ & _ & Eenc & Hlk). rewrite Hown in Ho. injection Ho as <-.
+    apply enc_ascii_spec in Heb. destruct Heb as [-> _].
+    pose proof (lookup_nonempty _ _ _ Hl) as Hne.
+    unfold eff_enc in H1. destruct own as [eb'|]; subst enc.
+    - destruct (Hlk eb' eq_refl) as (cn' & c' & Hl'). pose proof (lookup_nonempty _ _ _ Hl') as Hne'.
+      assert (Ht : wv_truthy (inj eb') = true) by (cbn [inj wv_truthy]; destruct eb'; [congruence|reflexivity]).
+      rewrite Ht in H1. cbn [negb andb] in H1. apply Ok_inj in H1. injection H1 as H1. apply ascii_text_inj in H1.
+      subst eb'. reflexivity.
+    - cbn [wv_truthy negb andb] in H1. destruct (pos_facts h s HP) as (_ & _ & _ & top & Htop & Hd).
+      rewrite Htop in H1. apply Ok_inj in H1. subst top. cbn [effective].
+      unfold Encodings.wdecl in Hd. cbn [wv_truthy] in Hd.
+      assert (Hn : nonempty (ascii_text eb) = true) by (destruct eb; [congruence|reflexivity]). rewrite Hn in Hd.
+      destruct (Encodings.spec_effective e0 h) as [eb'|]; [|discriminate Hd].
+      cbn [option_map inj] in Hd. injection Hd as Hd. apply ascii_text_inj in Hd. subst eb'. reflexivity.
+  Qed.
+
+  (* ---- line_endings: declared values ---- *)
+  Lemma le_choice : forall lev, In lev GenText.line_endings_values ->
+    choice_arg spec_line_endings (WStr (ascii_text lev)) = Some (Some lev).
+  Proof. intros lev [<-|[<-|[]]]; vm_compute; reflexivity. Qed.
+
+  Lemma le_declared : forall lev, In lev GenText.line_endings_values ->
+    declared_newline (WStr (ascii_text lev)) = Some (nl_text lev) /\
+    assoc_get beq lev GenText.newline_formats = Some (nl_text lev).
+  Proof.
+    intros lev H. destruct (le_values_facts lev H) as (H1 & _ & H3 & _).
+    unfold declared_newline. rewrite H1, H3. split; reflexivity.
+  Qed.
+
+  (* ---- text content (preamble, metadata) ---- *)
+  Lemma text_content_spec : forall h s t indw sind le enc own body le_out,
+    Pos h s -> enc_ok enc -> str_arg enc = Some own -> le_arg le ->
+    (indw = WNone /\ sind = None \/ exists k, (0 <= k)%Z /\ indw = WInt k /\ sind = Some (Z.to_nat k)) ->
+    prepare_content s (CText t) indw le enc true = Ok (body, le_out) ->
+    exists eb kind,
+      effective e0 h own = Some eb /\ line_kind_text le t = Some kind /\ le_out = WStr (ascii_text kind) /\
+      is_nil t = false /\ text_body eb kind t sind = Some body.
+  Proof.
+    intros h s t indw sind le enc own body le_out HP He Hown Hle Hind H.
+    apply prepare_content_unfold in H. destruct H as (e1 & nl0 & nb & cb & H1 & H2 & H3 & H4 & H5 & H6).
+    destruct (text_newline_is_model_newline _ _ _ _ _ _ H2 H3) as (e & eb & lename & -> & Heb & Hin & Hlo & Hdecl & Hg).
+    cbn [encode_content] in H4. unfold encode_dyn in H4. rewrite Heb in H4.
+    assert (Hl : exists canon c, lookup_codec eb = LOk canon c).
+    { unfold py_encode in H4. destruct (lookup_codec eb) as [canon c| |]; try discriminate H4. eauto. }
+    destruct Hl as (canon & c & Hl).
+    exists eb, lename.
+    split; [eapply eff_enc_spec; eassumption|].
+    split; [|split; [exact Hlo|split; [exact H5|]]].
+    - destruct Hle as [|lev Hlev].
+      + unfold choose_newline in H2. cbn [declared_newline] in H2.
+        destruct (guess_line_endings_text t) as [le0 nl] eqn:Eg. apply Ok_inj in H2. injection H2 as _ H2.
+        rewrite Hlo in H2. injection H2 as H2. apply ascii_text_inj in H2. subst le0.
+        unfold line_kind_text. cbn [choice_arg str_arg obind]. rewrite Eg. reflexivity.
+      + destruct (le_declared lev Hlev) as [Hd _].
+        assert (Hne : declared_newline (WStr (ascii_text lev)) <> None) by (rewrite Hd; discriminate).
+        specialize (Hdecl Hne). rewrite Hlo in Hdecl. injection Hdecl as Hdecl. apply ascii_text_inj in Hdecl. subst lename.
+        unfold line_kind_text. rewrite (le_choice lev Hlev). reflexivity.
+    - unfold text_body. rewrite Hg, H4.
+      set (nl := strip_bom nb (enc1_name (WStr e))) in *.
+      change (add_newline nl cb) with (terminate nl cb) in H6.
+      destruct (TextFacts.model_newlines_unbordered _ _ _ Hg) as [Hnl Hu].
+      destruct Hind as [[-> ->]|(k & Hk & -> & ->)].
+      + unfold finish_content in H6. cbn [wv_truthy] in H6. apply Ok_inj in H6. rewrite H6. reflexivity.
+      + unfold finish_content in H6. cbn [wv_truthy] in H6. unfold indent_lines.
+        destruct (Z.eqb k 0) eqn:Ek; cbn [negb] in H6.
+        * apply Ok_inj in H6. apply Z.eqb_eq in Ek. subst k. cbn [Z.to_nat].
+          assert (Hc1 : terminate nl cb <> []) by (apply WriterFacts.content1_ne; exact Hnl).
+          destruct (WriterFacts.split_lines_ok _ _ Hc1 Hnl) as (ls & Els). rewrite Els.
+          cbn [repeat_b app]. rewrite map_id. rewrite (TextFacts.C16b_concat _ _ _ Hc1 Hnl Hu Els). rewrite H6. reflexivity.
+        * cbn [indent_bytes bind] in H6.
+          destruct (split_lines (terminate nl cb) nl true) as [ls|] eqn:Els; cbn [bind] in H6; [|discriminate H6].
+          apply Ok_inj in H6. rewrite H6. reflexivity.
+  Qed.
+
+  (* ---- diff content ---- *)
+  Lemma diff_content_spec : forall s b le enc own body le_out,
+    enc_ok enc -> str_arg enc = Some own -> le_arg le ->
+    prepare_content s (CBytes b) WNone le enc false = Ok (body, le_out) ->
+    exists kind, line_kind_bytes le own b = Some kind /\ le_out = WStr (ascii_text kind) /\
+      In kind (map fst GenText.newline_formats) /\ is_nil b = false /\ diff_body own kind b = Some body.
+  Proof.
+    intros s b le enc own body le_out He Hown Hle H.
+    apply prepare_content_unfold in H. destruct H as (e1 & nl0 & nb & cb & H1 & H2 & H3 & H4 & H5 & H6).
+    unfold eff_enc in H1. rewrite andb_false_r in H1. apply Ok_inj in H1. subst e1.
+    cbn [encode_content] in H4. apply Ok_inj in H4. subst cb.
+    unfold finish_content in H6. cbn [wv_truthy] in H6. apply Ok_inj in H6.
+    set (nl := strip_bom nb (enc1_name enc)) in *.
+    change (add_newline nl b) with (terminate nl b) in H6.
+    assert (Hkey : exists kind, line_kind_bytes le own b = Some kind /\ le_out = WStr (ascii_text kind) /\
+                     In kind (map fst GenText.newline_formats) /\ get_newline_for_type kind own = Ok nl).
+    { destruct (enc_ok_arg enc He) as (own' & Ho & _ & _ & Eenc & Hlk). rewrite Hown in Ho. injection Ho as <-.
+      destruct own as [eb|]; subst enc.
+      - (* an own encoding *)
+        destruct (Hlk eb eq_refl) as (canon & c & Hl). destruct (spelling_facts _ _ _ Hl) as (_ & Hce & Hne & _).
+        assert (Ht : wv_truthy (inj eb) = true) by (cbn [inj wv_truthy]; destruct eb; [congruence|reflexivity]).
+        assert (Hnle : newline_encoding_of (inj eb) = inj eb) by (unfold newline_encoding_of; rewrite Ht; reflexivity).
+        assert (Hen : enc1_name (inj eb) = Some eb) by (cbn [inj enc1_name]; exact Hce).
+        unfold nl. rewrite Hen. clear nl H6.
+        unfold choose_newline in H2. rewrite Hnle in H2.
+        destruct Hle as [|lev Hlev].
+        + cbn [declared_newline] in H2. unfold enc_name, inj in H2. rewrite Hce in H2. cbn [bind] in H2.
+          destruct (guess_line_endings_bytes b (Some eb)) as [p|] eqn:Eg; cbn [bind] in H2; [|discriminate H2].
+          apply Ok_inj in H2. injection H2 as <- <-. cbn [encode_newline] in H3. apply Ok_inj in H3. subst nb.
+          destruct (guess_bytes_spec _ _ _ Eg) as [Hin Hg].
+          exists (fst p). split; [|split; [reflexivity|split; [exact Hin|]]].
+          * unfold line_kind_bytes. cbn [choice_arg str_arg obind]. rewrite Eg. reflexivity.
+          * rewrite (model_newline_strip_idem _ _ _ Hg). exact Hg.
+        + destruct (le_declared lev Hlev) as [Hd Hnf]. rewrite Hd in H2.
+          destruct (encode_dyn (nl_text lev) (inj eb)) as [nb'|] eqn:Ee; cbn [bind] in H2; [|discriminate H2].
+          apply Ok_inj in H2. injection H2 as <- <-. cbn [encode_newline] in H3. apply Ok_inj in H3. subst nb'.
+          unfold encode_dyn, inj in Ee. rewrite Hce in Ee.
+          exists lev. split; [|split; [reflexivity|split; [eapply TextFacts.assoc_get_beq_in; exact Hnf|]]].
+          * unfold line_kind_bytes. rewrite (le_choice lev Hlev). reflexivity.
+          * eapply gnft_unfold; eassumption.
+      - (* no encoding: the newline is ASCII *)
+        assert (Hnle : newline_encoding_of WNone = WStr (ascii_text (B "ascii"))) by reflexivity.
+        assert (Hca : c_enc ascii (ascii_text (B "ascii")) = Some (B "ascii")) by (vm_compute; reflexivity).
+        assert (Hnl : nl = nb) by reflexivity. rewrite Hnl. clear nl H6 Hnl.
+        unfold choose_newline in H2. rewrite Hnle in H2.
+        destruct Hle as [|lev Hlev].
+        + cbn [declared_newline] in H2. unfold enc_name in H2. rewrite Hca in H2. cbn [bind] in H2.
+          destruct (guess_line_endings_bytes b (Some (B "ascii"))) as [p|] eqn:Eg; cbn [bind] in H2; [|discriminate H2].
+          apply Ok_inj in H2. injection H2 as <- <-. cbn [encode_newline] in H3. apply Ok_inj in H3. subst nb.
+          destruct (guess_bytes_spec _ _ _ Eg) as [Hin Hg].
+          exists (fst p). split; [|split; [reflexivity|split; [exact Hin|exact Hg]]].
+          unfold line_kind_bytes. cbn [choice_arg str_arg obind].
+          change (guess_line_endings_bytes b None) with (guess_line_endings_bytes b (Some (B "ascii"))).
+          rewrite Eg. reflexivity.
+        + destruct (le_declared lev Hlev) as [Hd Hnf]. rewrite Hd in H2.
+          destruct (encode_dyn (nl_text lev) (WStr (ascii_text (B "ascii")))) as [nb'|] eqn:Ee; cbn [bind] in H2;
+            [|discriminate H2].
+          apply Ok_inj in H2. injection H2 as <- <-. cbn [encode_newline] in H3. apply Ok_inj in H3. subst nb'.
+          unfold encode_dyn in Ee. rewrite Hca in Ee.
+          exists lev. split; [|split; [reflexivity|split; [eapply TextFacts.assoc_get_beq_in; exact Hnf|]]].
+          * unfold line_kind_bytes. rewrite (le_choice lev Hlev). reflexivity.
+          * change (get_newline_for_type lev None) with (get_newline_for_type lev (Some (B "ascii"))).
+            rewrite (gnft_unfold _ _ _ _ Hnf Ee). rewrite strip_bom_no_entry by apply ascii_no_bom. reflexivity. }
+    destruct Hkey as (kind & Hk1 & Hk2 & Hk3 & Hk4).
+    exists kind. split; [exact Hk1|]. split; [exact Hk2|]. split; [exact Hk3|]. split; [exact H5|].
+    unfold diff_body. rewrite Hk4, H6. reflexivity.
+  Qed.
+
+
+  (* ---- write_preamble ---- *)
+  Lemma indent_views : forall ind, indent_ok ind ->
+    exists sind, spec_indent_arg ind = Some sind /\
+      (preamble_indent ind = WNone /\ sind = None \/
+       exists k, (0 <= k)%Z /\ preamble_indent ind = WInt k /\ sind = Some (Z.to_nat k)) /\
+      sval (preamble_indent ind) = option_map dec sind /\ rend_value (preamble_indent ind).
+  Proof.
+    intros [v|] H; cbn [indent_ok] in H.
+    - destruct H as [|k Hk].
+      + exists None. split; [reflexivity|]. split; [left; split; reflexivity|]. split; [reflexivity|constructor].
+      + exists (Some (Z.to_nat k)).
+        split; [cbn [spec_indent_arg]; apply Z.leb_le in Hk; rewrite Hk; reflexivity|].
+        split; [right; exists k; auto|]. split; [|constructor].
+        cbn [preamble_indent sval val_bytes option_map]. unfold dec. rewrite Z2Nat.id by exact Hk. reflexivity.
+    - exists (Some spec_default_indent). split; [reflexivity|].
+      split; [right; exists 4%Z; split; [lia|split; reflexivity]|]. split; [reflexivity|constructor].
+  Qed.
+
+  Lemma sval_le_out : forall kind, sval (WStr (ascii_text kind)) = Some kind.
+  Proof. intros. cbn [sval val_bytes]. rewrite map_n_byte_ascii_text. reflexivity. Qed.
+
+  Lemma preamble_step : forall h s text enc ind le mt s',
+    Pos h s -> call_good (WritePreamble text enc ind le mt) ->
+    do_call (WritePreamble text enc ind le mt) s = (s', Ok tt) ->
+    exists out, spec_call e0 h (WritePreamble text enc ind le mt) = Some (out, h) /\ w_out s' = w_out s ++ out.
+  Proof.
+    intros h s text enc ind le mt s' HP (He & Hi & Hle) H.
+    destruct (content_target h s _ s' (B "preamble") HP H eq_refl) as (Hlev & Hd2 & Hin).
+    pose proof (preamble_depth _ Hd2 Hin) as Hd1.
+    destruct (preamble_call_inv _ _ _ _ _ _ _ H) as (t & -> & Hmt & Hn).
+    destruct (C02_length_exact _ _ _ _ _ _ _ _ _ _ Hn) as (body & le_out & hd & Hprep & Hh & _ & Hout & _ & _).
+    destruct (enc_ok_arg enc He) as (own & Hown & _ & Hsv & _).
+    destruct (indent_views ind Hi) as (sind & Hsi & Hshape & Hsvi & Hri).
+    destruct (text_content_spec h s t _ sind le enc own body le_out HP He Hown Hle Hshape Hprep)
+      as (eb & kind & Heff & Hkind & Hlo & Hnil & Hbody).
+    destruct (choice_arg_accepted mt GenText.mimetypes choice_sub_mimetypes Hmt) as [Hcm Hrm].
+    destruct (prepared_le_out _ _ _ _ _ _ _ _ Hprep) as (x & _ & _ & Hlog & _).
+    exists (content_section (S (depth h)) (B "preamble") own sind (Some kind) (B "mimetype", sval mt) body).
+    split.
+    - cbn [spec_call]. apply Nat.leb_le in Hd1. rewrite Hd1, Hown. cbn [obind]. rewrite Hsi. cbn [obind].
+      change spec_mimetypes with GenText.mimetypes. rewrite Hcm. cbn [obind]. rewrite Hkind. cbn [obind].
+      rewrite Heff. cbn [obind]. rewrite Hnil, Hbody. reflexivity.
+    - rewrite Hout. f_equal. rewrite Hlev in Hh. replace (depth h + 1) with (S (depth h)) in Hh by lia.
+      eapply content_header_eq. 12: exact Hh.
+      + reflexivity.
+      + apply key_nodup. reflexivity.
+      + apply key_spec. reflexivity.
+      + exact Hrm.
+      + apply enc_ok_rend. exact He.
+      + exact Hri.
+      + apply good_rend. exact Hlog.
+      + exact Hsv.
+      + exact Hsvi.
+      + rewrite Hlo. apply sval_le_out.
+      + reflexivity.
+  Qed.
+
+  (* ---- write_meta ---- *)
+  Lemma format_views : forall fmt, in_strset (meta_fmt fmt) GenText.meta_formats = Ok true ->
+    exists f, format_arg fmt = Some f /\ sval (meta_fmt fmt) = Some f /\ rend_value (meta_fmt fmt).
+  Proof.
+    intros fmt H. destruct (in_strset_true _ _ H) as (x & Hx & E).
+    destruct (choice_arg_member GenText.meta_formats x Hx (choice_sub_meta_formats x Hx)) as (H1 & H2 & H3).
+    exists x. rewrite E. split; [|split; [exact H2|exact H3]].
+    destruct fmt as [v|]; cbn [meta_fmt] in E.
+    - subst v. cbn [format_arg]. change spec_meta_formats with GenText.meta_formats. rewrite H1. reflexivity.
+    - cbn [format_arg]. assert (E' : ascii_text GenText.meta_format_json = ascii_text x) by congruence.
+      apply ascii_text_inj in E'. rewrite <- E'. reflexivity.
+  Qed.
+
+  (* the canonical JSON text of a non-empty dict starts with "{" LF: its first line ends with LF, not CR LF *)
+  Lemma json_guess_unix : forall kv d, kv <> [] -> json_dump (JObj kv) = Ok d ->
+    fst (guess_line_endings_text (ascii_text d)) = B "unix".
+  Proof.
+    intros kv d Hkv Ed. unfold json_dump in Ed. rewrite dump_obj in Ed by exact Hkv.
+    destruct (dump_members 0 kv); [|discriminate Ed]. apply Ok_inj in Ed. subst d.
+    assert (Hd : exists r, ascii_text (B "{" ++ nl_indent 1 ++ join (B "," ++ nl_indent 1) (map render_member (sort_kb a))
+                                        ++ nl_indent 0 ++ B "}") = 123%N :: 10%N :: r).
+    { eexists. unfold ascii_text. rewrite !map_app. reflexivity. }
+    destruct Hd as (r & ->). rewrite guess_json_text. reflexivity.
+  Qed.
+
+  Lemma meta_step : forall h s md enc fmt s',
+    Pos h s -> call_good (WriteMeta md enc fmt) ->
+    do_call (WriteMeta md enc fmt) s = (s', Ok tt) ->
+    exists out, spec_call e0 h (WriteMeta md enc fmt) = Some (out, h) /\ w_out s' = w_out s ++ out.
+  Proof.
+    intros h s md enc fmt s' HP (He & kv & ->) H.
+    destruct (content_target h s _ s' (B "meta") HP H eq_refl) as (Hlev & _ & _).
+    destruct (meta_call_inv _ _ _ _ _ H) as (j & d & Ej & Htr & Hfmt & Hd & Hn). injection Ej as <-.
+    assert (Hkv : kv <> []) by (intros ->; discriminate Htr).
+    destruct (C02_length_exact _ _ _ _ _ _ _ _ _ _ Hn) as (body & le_out & hd & Hprep & Hh & _ & Hout & _ & _).
+    destruct (enc_ok_arg enc He) as (own & Hown & _ & Hsv & _).
+    destruct (text_content_spec h s (ascii_text d) WNone None WNone enc own body le_out HP He Hown la_none
+                (or_introl (conj eq_refl eq_refl)) Hprep) as (eb & kind & Heff & Hkind & Hlo & Hnil & Hbody).
+    unfold line_kind_text in Hkind. cbn [choice_arg str_arg obind] in Hkind. injection Hkind as Hkind.
+    rewrite (json_guess_unix kv d Hkv Hd) in Hkind. subst kind.
+    destruct (format_views fmt Hfmt) as (f & Hf & Hsf & Hrf).
+    destruct (prepared_le_out _ _ _ _ _ _ _ _ Hprep) as (x & _ & _ & Hlog & _).
+    exists (content_section (S (depth h)) (B "meta") own None None (B "format", Some f) body).
+    split.
+    - cbn [spec_call]. rewrite Hown. cbn [obind]. rewrite Hf. cbn [obind]. rewrite Heff. cbn [obind].
+      assert (Hn0 : is_nil kv = false) by (destruct kv; [congruence|reflexivity]). rewrite Hn0, Hd.
+      change (map byte_n d) with (ascii_text d). rewrite Hbody. reflexivity.
+    - rewrite Hout. f_equal. rewrite Hlev in Hh. replace (depth h + 1) with (S (depth h)) in Hh by lia.
+      eapply content_header_eq. 12: exact Hh.
+      + reflexivity.
+      + apply key_nodup. reflexivity.
+      + apply key_spec. reflexivity.
+      + exact Hrf.
+      + apply enc_ok_rend. exact He.
+      + constructor.
+      + apply good_rend. exact Hlog.
+      + exact Hsv.
+      + reflexivity.
+      + reflexivity.
+      + exact Hsf.
+  Qed.
+
+  (* ---- write_diff ---- *)
+  Lemma diff_step : forall h s content dt enc le s',
+    Pos h s -> call_good (WriteDiff content dt enc le) ->
+    do_call (WriteDiff content dt enc le) s = (s', Ok tt) ->
+    exists out, spec_call e0 h (WriteDiff content dt enc le) = Some (out, h) /\ w_out s' = w_out s ++ out.
+  Proof.
+    intros h s content dt enc le s' HP (He & Hle) H.
+    destruct (content_target h s _ s' (B "diff") HP H eq_refl) as (Hlev & Hd2 & Hin).
+    pose proof (diff_depth _ Hd2 Hin) as Hd.
+    destruct (diff_call_inv _ _ _ _ _ _ H) as (b & -> & Hdt & Hn).
+    destruct (C02_length_exact _ _ _ _ _ _ _ _ _ _ Hn) as (body & le_out & hd & Hprep & Hh & _ & Hout & _ & _).
+    destruct (enc_ok_arg enc He) as (own & Hown & _ & Hsv & _).
+    destruct (diff_content_spec s b le enc own body le_out He Hown Hle Hprep)
+      as (kind & Hkind & Hlo & _ & Hnil & Hbody).
+    destruct (choice_arg_accepted dt GenText.diff_types choice_sub_diff_types Hdt) as [Hct Hrt].
+    destruct (prepared_le_out _ _ _ _ _ _ _ _ Hprep) as (x & _ & _ & Hlog & _).
+    exists (content_section 3 (B "diff") own None (Some kind) (B "type", sval dt) body).
+    split.
+    - cbn [spec_call]. rewrite Hd. cbn [Nat.eqb]. rewrite Hown. cbn [obind].
+      change spec_diff_types with GenText.diff_types. rewrite Hct. cbn [obind]. rewrite Hkind. cbn [obind].
+      rewrite Hnil, Hbody. reflexivity.
+    - rewrite Hout. f_equal. rewrite Hlev, Hd in Hh. change (2 + 1) with 3 in Hh.
+      eapply content_header_eq. 12: exact Hh.
+      + reflexivity.
+      + apply key_nodup. reflexivity.
+      + apply key_spec. reflexivity.
+      + exact Hrt.
+      + apply enc_ok_rend. exact He.
+      + constructor.
+      + apply good_rend. exact Hlog.
+      + exact Hsv.
+      + reflexivity.
+      + rewrite Hlo. apply sval_le_out.
+      + reflexivity.
+  Qed.
+
+  (* ============================================================================================== *)
+  (** * E. the walk *)
+
+  (* one accepted call: the writer appended exactly the section the specification puts at this position *)
+  Lemma call_step : forall h s c s',
+    Pos h s -> call_good c -> do_call c s = (s', Ok tt) ->
+    exists out h', spec_call e0 h c = Some (out, h') /\ w_out s' = w_out s ++ out /\ Pos h' s'.
+  Proof.
+    intros h s c s' HP Hg H.
+    assert (Hkeep : Encodings.call_transition c = None -> Pos h s').
+    { intros Hc. rewrite <- (app_nil_r h). eapply (pos_step h s c s' []); [exact HP|exact H|]. rewrite Hc. reflexivity. }
+    destruct c as [e|e|text enc ind le mt|md enc fmt|content dt enc le].
+    - eapply container_step; eauto.
+    - eapply container_step; eauto.
+    - destruct (preamble_step _ _ _ _ _ _ _ _ HP Hg H) as (out & H1 & H2). exists out, h. auto.
+    - destruct (meta_step _ _ _ _ _ _ HP Hg H) as (out & H1 & H2). exists out, h. auto.
+    - destruct (diff_step _ _ _ _ _ _ _ HP Hg H) as (out & H1 & H2). exists out, h. auto.
+  Qed.
+
+  Lemma walk_correct : forall cs h s, Pos h s -> Forall call_good cs -> accepted s cs ->
+    exists suf, walk e0 h cs = Some suf /\ w_out (snd (run_calls s cs)) = w_out s ++ suf.
+  Proof.
+    induction cs as [|c t IH]; intros h s HP Hg Ha.
+    - exists []. split; [reflexivity|]. cbn [run_calls snd]. rewrite app_nil_r. reflexivity.
+    - inversion Hg as [|? ? Hc Ht]; subst. destruct (accepted_cons _ _ _ Ha) as (s' & Hd & Ha').
+      destruct (call_step h s c s' HP Hc Hd) as (out & h' & Hs & Ho & HP').
+      destruct (IH h' s' HP' Ht Ha') as (suf & Hw & Hr).
+      exists (out ++ suf). split.
+      + cbn [walk]. rewrite Hs. cbn [obind fst snd]. rewrite Hw. reflexivity.
+      + rewrite WriterFacts.run_calls_cons, Hd. cbn [fst snd]. rewrite Hr, Ho, app_assoc. reflexivity.
+  Qed.
+
+  (* the constructor: the main header *)
+  Lemma init_spec : exists v, choice_arg spec_versions ver = Some (Some v) /\
+    w_out s0 = header 0 (B "diffx") [(B "encoding", e0); (B "version", Some v)].
+  Proof.
+    pose proof Hinit as H. unfold writer_init in H.
+    destruct (in_strset ver GenText.versions) as [[|]|] eqn:Ev; try (inversion H; fail).
+    apply in_strset_true in Ev. destruct Ev as (x & Hx & Ever).
+    assert (Hxc : In x choice_values) by (unfold choice_values; do 4 (apply in_or_app; right); exact Hx).
+    destruct (choice_arg_member GenText.versions x Hx Hxc) as (H1 & H2 & H3).
+    exists x. rewrite Ever. split; [exact H1|].
+    rewrite WriterFacts.ncs_eq in H by (first [discriminate | unfold GenText.writer_level_main; lia]).
+    cbn [validate_section w_prev] in H.
+    destruct (render_header _ _) as [hd|] eqn:Eh; [|inversion H]. cbv zeta in H. injection H as Hs.
+    rewrite <- Hs. cbn [w_out app].
+    rewrite Ever in Eh.
+    change (dict_set "encoding" enc0 [(B "version", WStr (ascii_text x))])
+      with [(B "version", WStr (ascii_text x)); (B "encoding", enc0)] in Eh.
+    change (GenText.writer_level_main - 1) with 0 in Eh.
+    refine (writer_header_eq 0 (B "diffx") _ _ hd _ _ _ Eh).
+    - apply key_nodup. reflexivity.
+    - constructor; [split; [apply key_spec; reflexivity|exact H3]|].
+      constructor; [split; [apply key_spec; reflexivity|apply enc_ok_rend; exact Henc0]|constructor].
+    - cbn [map fst snd]. rewrite H2.
+      destruct (enc_ok_arg enc0 Henc0) as (own & Ho & _ & Hsv & _). rewrite He0 in Ho. injection Ho as <-. rewrite Hsv.
+      apply (opt_pairs_cons_snoc (B "version", Some x) [(B "encoding", e0)]).
+  Qed.
+
 End Walk.
+
+(* ================================================================================================ *)
+(** * The theorem *)
+
+Theorem C02_writer_is_spec_thm : forall enc0 ver s0 cs,
+  writer_init enc0 ver = (s0, Ok tt) -> enc_ok enc0 -> Forall call_good cs -> accepted s0 cs ->
+  spec_serialize enc0 ver cs = Some (w_out (snd (run_calls s0 cs))).
+Proof.
+  intros enc0 ver s0 cs Hi He Hg Ha.
+  destruct (enc_ok_arg enc0 He) as (e0 & He0 & _).
+  destruct (init_spec enc0 ver s0 e0 Hi He0 He) as (v & Hv & Hout).
+  destruct (walk_correct enc0 ver s0 e0 Hi He0 He cs [] s0 (pos_init s0) Hg Ha) as (suf & Hw & Hr).
+  unfold spec_serialize. rewrite He0. cbn [obind]. rewrite Hv. cbn [obind]. rewrite Hw. cbn [obind].
+  rewrite Hr, Hout. reflexivity.
+Qed.
+
+(* under the same hypotheses the specification's serializer is defined: every argument is in its domain and every
+   section has a legal id at its position *)
+Corollary spec_serialize_defined : forall enc0 ver s0 cs,
+  writer_init enc0 ver = (s0, Ok tt) -> enc_ok enc0 -> Forall call_good cs -> accepted s0 cs ->
+  spec_serialize enc0 ver cs <> None.
+Proof. intros enc0 ver s0 cs Hi He Hg Ha. rewrite (C02_writer_is_spec_thm _ _ _ _ Hi He Hg Ha). discriminate. Qed.
+
+(* every intermediate output too: the bytes after each accepted call are the serialization of the calls so far *)
+Corollary writer_is_spec_prefix : forall enc0 ver s0 pre post,
+  writer_init enc0 ver = (s0, Ok tt) -> enc_ok enc0 -> Forall call_good (pre ++ post) -> accepted s0 (pre ++ post) ->
+  spec_serialize enc0 ver pre = Some (w_out (snd (run_calls s0 pre))).
+Proof.
+  intros enc0 ver s0 pre post Hi He Hg Ha. apply Forall_app in Hg. destruct Hg as [Hg _].
+  apply C02_writer_is_spec_thm; try assumption.
+  unfold accepted in *. rewrite run_calls_app_fst in Ha. apply Forall_app in Ha. apply Ha.
+Qed.
+
+(* ================================================================================================ *)
+(** * Examples *)
+
+(* the 14-call program of RoundTripSeqExample.v (three changes, six encodings, inherited and own, indentation,
+   declared and detected line endings): the hypotheses hold and both sides are the same 857 bytes *)
+Lemma spec_example :
+  writer_init RoundTripSeqExample.ex_enc0 RoundTripSeqExample.ex_ver = (RoundTripSeqExample.ex_s0, Ok tt) /\
+  enc_ok RoundTripSeqExample.ex_enc0 /\ Forall call_good RoundTripSeqExample.ex_cs /\
+  accepted RoundTripSeqExample.ex_s0 RoundTripSeqExample.ex_cs /\
+  spec_serialize RoundTripSeqExample.ex_enc0 RoundTripSeqExample.ex_ver RoundTripSeqExample.ex_cs
+    = Some (w_out (snd (run_calls RoundTripSeqExample.ex_s0 RoundTripSeqExample.ex_cs))) /\
+  option_map (@length byte)
+    (spec_serialize RoundTripSeqExample.ex_enc0 RoundTripSeqExample.ex_ver RoundTripSeqExample.ex_cs) = Some 857.
+Proof.
+  split; [exact RoundTripSeqExample.ex_init|]. split; [exact RoundTripSeqExample.ex_enc0_ok|].
+  split; [exact RoundTripSeqExample.ex_good|]. split; [exact RoundTripSeqExample.ex_accepted|].
+  split; vm_compute; reflexivity.
+Qed.
+
+(* [spec_serialize] does not check the ORDER of sections (that is C09/C10: the writer enforces the state tree of
+   section-format.rst); so it is defined on call lists the writer rejects, and the converse of the theorem
+   ("spec_serialize = Some b -> all calls accepted") is false as stated.  Witness: two main preambles. *)
+Definition ex_preamble_a : call := WritePreamble (WStr (ascii_text (B "a"))) WNone None WNone WNone.
+Lemma spec_converse_refuted :
+  exists enc0 ver s0 cs b,
+    writer_init enc0 ver = (s0, Ok tt) /\ enc_ok enc0 /\ Forall call_good cs /\
+    spec_serialize enc0 ver cs = Some b /\ ~ accepted s0 cs.
+Proof.
+  exists RoundTripSeqExample.ex_enc0, RoundTripSeqExample.ex_ver, RoundTripSeqExample.ex_s0,
+         [ex_preamble_a; ex_preamble_a].
+  eexists. split; [exact RoundTripSeqExample.ex_init|]. split; [exact RoundTripSeqExample.ex_enc0_ok|].
+  split; [|split].
+  - assert (G : call_good ex_preamble_a).
+    { cbn [call_good ex_preamble_a indent_ok]. split; [left; reflexivity|]. split; [exact I|apply la_none]. }
+    constructor; [exact G|]. constructor; [exact G|constructor].
+  - vm_compute. reflexivity.
+  - intros H. unfold accepted in H. vm_compute in H.
+    inversion H as [|? ? _ H2]. inversion H2 as [|? ? H3 _]. discriminate H3.
+Qed.
